@@ -534,8 +534,9 @@ Qed.
 
 Theorem step_refines s o : Inv s -> step s o = spec_step recorded s o.
 Proof.
-  intros HI. destruct o as [p k m|p kd a fid]; [|reflexivity].
-  unfold step, spec_step. rewrite handle_msg_refines by exact HI. reflexivity.
+  intros HI. destruct o as [p k m|p kd a fid|p k m p' kd a fid]; [|reflexivity|].
+  - unfold step, spec_step. rewrite handle_msg_refines by exact HI. reflexivity.
+  - unfold step, spec_step. rewrite handle_msg_refines by exact HI. reflexivity.
 Qed.
 
 (* ---- the invariant is kept *)
@@ -590,11 +591,19 @@ Proof.
     simpl in C. destruct (N.eqb kd 2 || N.eqb kd 3); [exact C|discriminate].
 Qed.
 
+Lemma Inv_call_after s p p' kd a fid : Inv s -> Inv (fst (call_after s p p' kd a fid)).
+Proof.
+  intros HI. unfold call_after. destruct (N.eqb p p' || negb (N.eqb kd K_SUB || N.eqb kd K_BIND)); [exact HI|].
+  apply Inv_reg_add. exact HI.
+Qed.
+
 Lemma Inv_spec_step d s o : Inv s -> Inv (fst (spec_step d s o)).
 Proof.
-  intros HI. destruct o as [p k m|p kd a fid]; unfold spec_step.
+  intros HI. destruct o as [p k m|p kd a fid|p k m p' kd a fid]; unfold spec_step.
   - pose proof (Inv_spec_msg d s p k m HI) as H. destruct (spec_msg d s p k m). exact H.
   - pose proof (Inv_reg_add s p kd a fid HI) as H. destruct (reg_add s p kd a fid). exact H.
+  - pose proof (Inv_spec_msg d s p k m HI) as H. destruct (spec_msg d s p k m) as [s1 evs]. cbn [fst] in H.
+    pose proof (Inv_call_after s1 p p' kd a fid H) as H2. destruct (call_after s1 p p' kd a fid). exact H2.
 Qed.
 
 Lemma Inv_step s o : Inv s -> Inv (fst (step s o)).
@@ -761,26 +770,86 @@ Proof.
   reflexivity.
 Qed.
 
-Theorem ideal_vs_recorded s o c :
-  In c (judge_out o (snd (spec_step ideal s o)) (snd (spec_step recorded s o))) -> excusable c = true.
+(* states that differ at most in the types and contents of the entities of peer p *)
+Definition peer_sim (act : bool) (x y : peer) : Prop :=
+  if act then p_known x = p_known y /\ addrs (p_tree x) = addrs (p_tree y) else x = y.
+
+Definition st_sim (p : N) (a b : st) : Prop :=
+  peer_sim (N.eqb p 0) (s0 a) (s0 b) /\ peer_sim (N.eqb p 1) (s1 a) (s1 b) /\
+  peer_sim (N.eqb p 2) (s2 a) (s2 b) /\ s_reg a = s_reg b.
+
+Lemma peer_sim_refl act x : peer_sim act x x.
+Proof. destruct act; simpl; auto. Qed.
+
+Lemma st_sim_refl p s : st_sim p s s.
+Proof. repeat split; apply peer_sim_refl. Qed.
+
+Lemma judge_peer_sim act x y c : peer_sim act x y -> In c (judge_peer act x y) -> excusable c = true.
 Proof.
-  destruct o as [p k m|p kd a fid].
-  2:{ unfold spec_step. destruct (reg_add s p kd a fid) as [s1 ok]. cbn [snd].
-      rewrite judge_out_same. intros []. }
-  unfold spec_step, spec_msg.
-  destruct (get_peer s p) as [pr|] eqn:G.
-  2:{ cbn [snd]. rewrite judge_out_same. intros []. }
-  destruct (negb (source_resolves (p_tree pr))).
-  { cbn [snd]. rewrite judge_out_same. intros []. }
+  destruct act; unfold peer_sim; intros H Hc.
+  - destruct x as [kx tx], y as [ky ty]. cbn [p_known p_tree] in H. destruct H as [-> H].
+    eapply judge_peer_addrs; eauto.
+  - subst y. rewrite (judge_peer_same false x) in Hc. destruct Hc.
+Qed.
+
+Lemma judge_out_sim o p sa sb rest c :
+  (forall i, acts o i = N.eqb p i) -> st_sim p sa sb ->
+  In c (judge_out o (OSnap sa :: rest) (OSnap sb :: rest)) -> excusable c = true.
+Proof.
+  intros Ha [H0 [H1 [H2 Hr]]]. unfold judge_out. rewrite !Ha, Hr.
+  rewrite (list_eqb_refl _ rentry_eqb_refl), (list_eqb_refl _ obs_eqb_refl). cbn [flag app]. rewrite !app_nil_r.
+  intros Hc. apply in_app_or in Hc. destruct Hc as [Hc|Hc]; [exact (judge_peer_sim _ _ _ _ H0 Hc)|].
+  apply in_app_or in Hc. destruct Hc as [Hc|Hc]; [exact (judge_peer_sim _ _ _ _ H1 Hc)|exact (judge_peer_sim _ _ _ _ H2 Hc)].
+Qed.
+
+Lemma spec_msg_sim s p k m :
+  st_sim p (fst (spec_msg ideal s p k m)) (fst (spec_msg recorded s p k m)) /\
+  snd (spec_msg ideal s p k m) = snd (spec_msg recorded s p k m).
+Proof.
+  unfold spec_msg.
+  destruct (get_peer s p) as [pr|] eqn:G; [|split; [apply st_sim_refl|reflexivity]].
+  destruct (negb (source_resolves (p_tree pr))); [split; [apply st_sim_refl|reflexivity]|].
   destruct (apply_sim k (p_tree pr) m) as [A B].
   destruct (apply ideal k (p_tree pr) m) as [ti ci].
   destruct (apply recorded k (p_tree pr) m) as [tr cr]. cbn [fst snd] in A, B. subst cr.
-  cbn [snd]. unfold judge_out.
-  rewrite (list_eqb_refl _ obs_eqb_refl). cbn [flag app].
-  pose proof (get_peer_some _ _ _ G) as Hp.
-  destruct Hp as [->|[->| ->]]; cbn [set_peer set_reg s0 s1 s2 s_reg acts N.eqb Pos.eqb];
-    rewrite ?judge_peer_same, (list_eqb_refl _ rentry_eqb_refl); cbn [flag app]; rewrite ?app_nil_r;
-    intros Hc; eapply judge_peer_addrs; eauto.
+  cbn [fst snd]. split; [|reflexivity].
+  destruct (get_peer_some _ _ _ G) as [->|[->| ->]]; unfold st_sim;
+    cbn [set_peer set_reg s0 s1 s2 s_reg N.eqb Pos.eqb peer_sim p_known p_tree]; repeat split; auto.
+Qed.
+
+Lemma call_after_sim p sa sb p' kd a fid :
+  st_sim p sa sb ->
+  snd (call_after sa p p' kd a fid) = snd (call_after sb p p' kd a fid) /\
+  st_sim p (fst (call_after sa p p' kd a fid)) (fst (call_after sb p p' kd a fid)).
+Proof.
+  intros H. unfold call_after.
+  destruct (N.eqb p p') eqn:E; cbn [orb]; [split; [reflexivity|exact H]|].
+  destruct (negb (N.eqb kd K_SUB || N.eqb kd K_BIND)); [split; [reflexivity|exact H]|].
+  destruct H as [H0 [H1 [H2 Hr]]].
+  assert (G : get_peer sa p' = get_peer sb p').
+  { destruct p' as [|[[]|[]|]]; cbn [get_peer]; try reflexivity.
+    - rewrite E in H0. simpl in H0. rewrite H0. reflexivity.
+    - rewrite E in H2. simpl in H2. rewrite H2. reflexivity.
+    - rewrite E in H1. simpl in H1. rewrite H1. reflexivity. }
+  unfold reg_add. rewrite G, Hr. destruct (get_peer sb p') as [pr|]; [|split; [reflexivity|repeat split; assumption]].
+  match goal with |- snd (if ?c then _ else _) = _ /\ _ => destruct c end;
+    (split; [reflexivity|]); cbn [fst]; unfold st_sim; cbn [set_reg s0 s1 s2 s_reg]; repeat split; assumption.
+Qed.
+
+Theorem ideal_vs_recorded s o c :
+  In c (judge_out o (snd (spec_step ideal s o)) (snd (spec_step recorded s o))) -> excusable c = true.
+Proof.
+  destruct o as [p k m|p kd a fid|p k m p' kd a fid]; unfold spec_step.
+  - destruct (spec_msg_sim s p k m) as [A B].
+    destruct (spec_msg ideal s p k m) as [si ei]. destruct (spec_msg recorded s p k m) as [sr er].
+    cbn [fst snd] in *. subst er. apply (judge_out_sim _ p); [reflexivity|exact A].
+  - destruct (reg_add s p kd a fid) as [s1 ok]. cbn [snd]. rewrite judge_out_same. intros [].
+  - destruct (spec_msg_sim s p k m) as [A B].
+    destruct (spec_msg ideal s p k m) as [si ei]. destruct (spec_msg recorded s p k m) as [sr er].
+    cbn [fst snd] in A, B. subst er.
+    destruct (call_after_sim p si sr p' kd a fid A) as [C D].
+    destruct (call_after si p p' kd a fid) as [si2 oki]. destruct (call_after sr p p' kd a fid) as [sr2 okr].
+    cbn [fst snd] in *. subst okr. apply (judge_out_sim _ p); [reflexivity|exact D].
 Qed.
 
 (* ---------------------------------------------------------------- Part C: every trace is accepted *)
@@ -811,9 +880,10 @@ Qed.
 
 Lemma spec_step_shape d s o : exists evs, snd (spec_step d s o) = OSnap (fst (spec_step d s o)) :: evs.
 Proof.
-  destruct o as [p k m|p kd a fid]; unfold spec_step.
+  destruct o as [p k m|p kd a fid|p k m p' kd a fid]; unfold spec_step.
   - destruct (spec_msg d s p k m) as [s1 evs]. eexists. reflexivity.
   - destruct (reg_add s p kd a fid) as [s1 ok]. eexists. reflexivity.
+  - destruct (spec_msg d s p k m) as [s1 evs]. destruct (call_after s1 p p' kd a fid) as [s2 ok]. eexists. reflexivity.
 Qed.
 
 Lemma judge_accepted ops : forall s ex, Inv s ->
@@ -923,20 +993,38 @@ Qed.
 Definition unique_addresses (s : st) : Prop :=
   NoDup (addrs (p_tree (s0 s))) /\ NoDup (addrs (p_tree (s1 s))) /\ NoDup (addrs (p_tree (s2 s))).
 
+Lemma unique_spec_step_msg d s p k m : unique_addresses s -> unique_addresses (fst (spec_msg d s p k m)).
+Proof.
+  intros HU. unfold spec_msg. destruct (get_peer s p) as [pr|] eqn:G; [|exact HU].
+  destruct (negb (source_resolves (p_tree pr))); [exact HU|].
+  assert (Hpr : NoDup (addrs (p_tree pr))).
+  { destruct HU as [U0 [U1 U2]]. destruct (get_peer_some _ _ _ G) as [->|[->| ->]];
+      cbn in G; injection G as <-; assumption. }
+  pose proof (nodup_apply d k (p_tree pr) m Hpr) as Ha.
+  destruct (apply d k (p_tree pr) m) as [t' c]. cbn [fst] in *.
+  destruct HU as [U0 [U1 U2]].
+  destruct (get_peer_some _ _ _ G) as [->|[->| ->]]; repeat split; cbn; assumption.
+Qed.
+
+Lemma unique_reg_add s p kd a fid : unique_addresses s -> unique_addresses (fst (reg_add s p kd a fid)).
+Proof.
+  intros HU. unfold reg_add. destruct (get_peer s p); [|exact HU].
+  match goal with |- unique_addresses (fst (if ?c then _ else _)) => destruct c end; exact HU.
+Qed.
+
+Lemma unique_call_after s p p' kd a fid : unique_addresses s -> unique_addresses (fst (call_after s p p' kd a fid)).
+Proof.
+  intros HU. unfold call_after. destruct (N.eqb p p' || negb (N.eqb kd K_SUB || N.eqb kd K_BIND)); [exact HU|].
+  apply unique_reg_add. exact HU.
+Qed.
+
 Lemma unique_spec_step d s o : unique_addresses s -> unique_addresses (fst (spec_step d s o)).
 Proof.
-  intros HU. destruct o as [p k m|p kd a fid]; unfold spec_step.
-  - unfold spec_msg. destruct (get_peer s p) as [pr|] eqn:G; [|exact HU].
-    destruct (negb (source_resolves (p_tree pr))); [exact HU|].
-    assert (Hpr : NoDup (addrs (p_tree pr))).
-    { destruct HU as [U0 [U1 U2]]. destruct (get_peer_some _ _ _ G) as [->|[->| ->]];
-        cbn in G; injection G as <-; assumption. }
-    pose proof (nodup_apply d k (p_tree pr) m Hpr) as Ha.
-    destruct (apply d k (p_tree pr) m) as [t' c]. cbn [fst] in *.
-    destruct HU as [U0 [U1 U2]].
-    destruct (get_peer_some _ _ _ G) as [->|[->| ->]]; repeat split; cbn; assumption.
-  - unfold reg_add. destruct (get_peer s p); [|exact HU].
-    match goal with |- unique_addresses (fst (let '(_, _) := (if ?c then _ else _) in _)) => destruct c end; exact HU.
+  intros HU. destruct o as [p k m|p kd a fid|p k m p' kd a fid]; unfold spec_step.
+  - pose proof (unique_spec_step_msg d s p k m HU) as H1. destruct (spec_msg d s p k m). exact H1.
+  - pose proof (unique_reg_add s p kd a fid HU) as H1. destruct (reg_add s p kd a fid). exact H1.
+  - pose proof (unique_spec_step_msg d s p k m HU) as H1. destruct (spec_msg d s p k m) as [s1 evs]. cbn [fst] in H1.
+    pose proof (unique_call_after s1 p p' kd a fid H1) as H2. destruct (call_after s1 p p' kd a fid). exact H2.
 Qed.
 
 Lemma unique_run ops : forall s, Inv s -> unique_addresses s -> unique_addresses (fst (run s ops)).
